@@ -228,6 +228,77 @@ func runC04(c *Ctx) {
 		}
 	}
 
+	// ---- C04.f / C04.g ----
+	c.clause("C04.f", "T2", "prioritized-task brackets are closed on all exits: a layer that makes a mount/prefetch/check fail must not leave background work blocked forever", 5)
+	c.doDonePairing()
+	c.clause("C04.g", "T6", "an index of the form x-k (k>0) into a slice is guarded by a dominating test that x >= k", 1)
+	for _, f := range scope {
+		eachInstr(f, func(i ssa.Instruction) {
+			var idx, base ssa.Value
+			switch x := i.(type) {
+			case *ssa.IndexAddr:
+				idx, base = x.Index, x.X
+			case *ssa.Index:
+				idx, base = x.Index, x.X
+			default:
+				return
+			}
+			if _, isSl := base.Type().Underlying().(*types.Slice); !isSl {
+				if b, ok := base.Type().Underlying().(*types.Basic); !ok || b.Info()&types.IsString == 0 {
+					return
+				}
+			}
+			bo, ok := stripConv(idx).(*ssa.BinOp)
+			if !ok || bo.Op != token.SUB {
+				return
+			}
+			k, ok := constInt(bo.Y)
+			if !ok || k <= 0 {
+				return
+			}
+			x := stripConv(bo.X)
+			// len(s)-k on the same slice guarded by len test, or x with x>=k test
+			key := fmt.Sprintf("%s:index %s[%s-%d]", c.fnKey(f), valName(base), valName(x), k)
+			if lc, ok := x.(*ssa.Call); ok {
+				if b, ok := lc.Call.Value.(*ssa.Builtin); ok && b.Name() == "len" {
+					return // s[len(s)-k]: non-emptiness is usually established by earlier element accesses/appends; not decided here
+				}
+			}
+			lo := condEdges(f, func(cond ssa.Value) int {
+				b, ok := cond.(*ssa.BinOp)
+				if !ok || stripConv(b.X) != x {
+					return 0
+				}
+				n, isC := constInt(b.Y)
+				if !isC {
+					return 0
+				}
+				switch {
+				case b.Op == token.EQL && n >= 0 && n < k && k == n+1:
+					return -1 // x == 0 false ⇒ x != 0 (x is a non-negative search index)
+				case b.Op == token.NEQ && n >= 0 && k == n+1:
+					return 1
+				case b.Op == token.GTR && n >= k-1:
+					return 1
+				case b.Op == token.GEQ && n >= k:
+					return 1
+				case b.Op == token.LSS && n >= k:
+					return -1
+				case b.Op == token.LEQ && n >= k-1:
+					return -1
+				}
+				return 0
+			})
+			okp := false
+			var path []int
+			if len(lo) > 0 {
+				okp, path = mustPass(f, i, newCuts().addEdges(lo))
+			}
+			// loop counters that start at len-1/len and count down with an i >= 0 / i > 0 condition are covered by the same comparison forms
+			c.verdict(key, i.Pos(), okp, "guarded by a lower-bound test on the index base", "index "+valName(x)+fmt.Sprintf("-%d", k)+" without a dominating lower-bound test: a TOC/reply that makes the search return 0 panics with index out of range: "+c.pathStr(f, path))
+		})
+	}
+
 	// ---- C04.d ----
 	discardAllow := map[string]string{
 		"compress/gzip.NewWriterLevel": "fails only for an invalid compression level, which is configuration, not input bytes",
